@@ -74,6 +74,19 @@ def eqs():
                       "limit(40; 0 | def rec: if (%s) then ., ((%s) | rec) else empty end; rec)" % (wc, upd)))
             E.append(("recurse-multi", "limit(40; 0 | recurse(%s | select(. < 4); %s))" % (upd, wc),
                       "limit(40; 0 | def r: ., (((%s | select(. < 4)) | select(%s)) | r); r)" % (upd, wc)))
+    # reduce / foreach against the nested-pipe expansion when the update yields several outputs at one step and none at another
+    # (empties of every shape: `empty`, an empty iteration, limit(0; _), a false select, ...)
+    multi = ["(., . + 1)", "(. + 1, . + 2, . + 3)", ". + $x", "(., .)"]
+    none = ["empty", "{}[]", "[][]", "limit(0; .)", "first(empty)", "select(false)", "(.. | strings)", "if true then empty else . end"]
+    for mu, no in itertools.product(multi, none):
+        for k, cond in itertools.product(["1", "2", "3"], ["", " and . == 0", " and . > 0"]):
+            upd = "if $x == %s%s then %s else %s end" % (k, cond, no, mu)
+            step = lambda i: "(%s as $x | %s)" % (i, upd)
+            E.append(("reduce-multi", "[reduce (1,2,3) as $x (0; %s)]" % upd, "[0 | %s | %s | %s]" % (step(1), step(2), step(3))))
+            E.append(("foreach-multi", "[foreach (1,2,3) as $x (0; %s)]" % upd,
+                      "[0 | %s | (., (%s | (., %s)))]" % (step(1), step(2), step(3))))
+            E.append(("foreach3-multi", "[foreach (1,2,3) as $x (0; %s; [$x, .])]" % upd,
+                      "[0 | %s | ([1, .], (%s | ([2, .], (%s | [3, .]))))]" % (step(1), step(2), step(3))))
     E.append(("recurse0", "[recurse]", "[recurse(.[]?)]"))
     E.append(("dotdot", "[..]", "[recurse]"))
     E.append(("recurse2", "[limit(9; recurse(.[]?; . != 2))]", "[limit(9; recurse(.[]? | select(. != 2)))]"))
